@@ -570,6 +570,11 @@ func (q *BufferedChannelQueue[T]) loadFromPool() {
 		verifPoint("bq.loader.checked", q)
 
 		q.lock.Lock()
+		if q.isClosed.Get() {
+			// Closed while waiting for the lock: the channels are closed, nothing left to load
+			q.lock.Unlock()
+			break
+		}
 		verifPoint("bq.loader.locked", q)
 
 		var val T
@@ -600,6 +605,13 @@ func (q *BufferedChannelQueue[T]) loadFromPool() {
 }
 
 func (q *BufferedChannelQueue[T]) notifyWorkers() {
+	// Close() closes the channels under the write lock: never notify a closed queue
+	q.lock.RLock()
+	defer q.lock.RUnlock()
+	if q.isClosed.Get() {
+		return
+	}
+
 	q.loadWorkerCh.Offer(1)
 	q.freeNodeWorkerCh.Offer(1)
 }
